@@ -678,6 +678,25 @@ def route_dir(ctx, model, case, samples, ans, cfg):
     else:
         ctx.hit("dir:summary-rejected:" + str(summ0).split(":")[0])
         dbg("summary rejected", summ0)
+    # the same output path written again with other samples (a fit re-run, a search chaining over one folder):
+    # what is loaded afterwards - also through a new paths object - is what was written last
+    if loaded is not None and len(spec["rows"]) >= 2 and ctx.rng.random() < 0.5:
+        spec2 = dict(spec, rows=list(reversed(spec["rows"]))[: max(1, len(spec["rows"]) - 1)])
+        case2 = dict(case, samples=spec2, resaved=True)
+        st2, samples2 = attempt(build_samples, model, spec2)
+        if st2 == "ok":
+            st2, e2 = attempt(paths.save_samples, samples2)
+        if st2 == "ok":
+            ctx.hit("route:dir-written-again")
+            paths2 = DirectoryPaths(name=name, path_prefix="c09")
+            paths2.model = model
+            for how, pp in (("same paths object", paths), ("new paths object", paths2)):
+                st3, loaded2 = attempt(lambda: pp.samples)
+                if st3 == "err":
+                    ctx.fail(classify(model, case2, "load-raises", "dir"), "dir: loading samples.csv written a second time raises",
+                             dict(case2, route="dir:again"), loaded2)
+                else:
+                    check_loaded(ctx, model, case2, "dir", loaded2, truth(model, spec2, best=own_best(samples2, samples2)), derived(samples2))
     shutil.rmtree(paths.output_path, ignore_errors=True)
     return out
 
